@@ -10,6 +10,8 @@ bound: Decimal - sign x 40 coefficient shapes (1..60 digits, leading / trailing 
                plus specials 0, -0, 0E-10, 1E+30;  float - +-0.0, subnormal, DBL_MIN/MAX, 1e22-1e23 boundary,
                2000 values m * 10**e (m in 25 mantissas, e in -30..30), inf, -inf, nan;
        bytes - every length 0..33 with three byte patterns, formats base16 and base64
+       spellings - every serialized text again with 5 paddings of XSD white space (#x20 #x9 #xA #xD), base64 also with
+               5 separators between groups of four characters and MIME line breaks: must be accepted with the same value
 usage: primitive_roundtrip.py -> JSON summary, exit 1 if a case fails;  --case <repr> replays one case
 """
 import json
@@ -69,6 +71,21 @@ def check(kind, value, kw):
             (back == value and (not isinstance(value, float) or math.copysign(1, back) == math.copysign(1, value))))
     if type(back) is not type(value) or not same:
         return f"{text!r} converts back to {back!r}"
+    # acceptance of the other spellings XSD allows for the same value: whiteSpace=collapse on all four datatypes
+    # (leading / trailing #x20 #x9 #xA #xD), and for base64Binary white space between the characters (line breaks)
+    spellings = [ws + text + ws2 for ws, ws2 in ((" ", ""), ("", " "), ("\t", "\n"), ("\r", "\r\n"), (" \r\n\t ", "\r"))]
+    if kw.get("format") == "base64" and len(text) > 4:
+        for sep in (" ", "\n", "\r\n", "\r", "\t"):
+            spellings.append(sep.join(text[i:i + 4] for i in range(0, len(text), 4)))
+        spellings.append("\r\n".join(text[i:i + 76] for i in range(0, len(text), 76)) + "\r\n")
+    for sp in spellings:
+        try:
+            again = converter.deserialize(sp, [type(value)], **kw)
+        except Exception as e:  # noqa
+            return f"the valid lexical form {sp!r} is rejected: {type(e).__name__}: {e}"
+        ok = (math.isnan(again) if isinstance(value, float) and math.isnan(value) else again == value)
+        if type(again) is not type(value) or not ok:
+            return f"the valid lexical form {sp!r} converts to {again!r}"
     return None
 
 
